@@ -589,7 +589,7 @@ def rule_cachekey(ctx, prop, rule, modules):
     from ..model import own_nodes, norm_src
     from ..util import key_of
     rr = RuleResult(prop, rule, 'TAB',
-                    'a per-call cache key determines the cached value', floor=1)
+                    'a per-call cache key determines the cached value', floor=0)
     for rel in modules:
         m = ctx.project.module(rel)
         for f in m.all_funcs:
@@ -614,6 +614,37 @@ def rule_cachekey(ctx, prop, rule, modules):
                 kn = {x.id for x in ast.walk(K) if isinstance(x, ast.Name)}
                 _judge_key(ctx, rr, f, rel, n, D, K, V, kn, loc)
                 continue
+            # x = D.get(K); if x is None: x = D[K] = v
+            from ..util import assign_pairs as _ap
+            gets = {}
+            for t, v, _st in _ap(f):
+                if isinstance(t, ast.Name) and isinstance(v, ast.Call) and \
+                        isinstance(v.func, ast.Attribute) and \
+                        v.func.attr == 'get' and len(v.args) == 1 and \
+                        isinstance(v.func.value, (ast.Name, ast.Attribute)):
+                    gets[t.id] = (v.func.value, v.args[0])
+            for n in own_nodes(f):
+                if not (isinstance(n, ast.If) and isinstance(
+                        n.test, ast.Compare) and len(n.test.ops) == 1 and
+                        isinstance(n.test.ops[0], ast.Is) and isinstance(
+                            n.test.left, ast.Name) and n.test.left.id in gets
+                        and isinstance(n.test.comparators[0], ast.Constant)
+                        and n.test.comparators[0].value is None):
+                    continue
+                D, K = gets[n.test.left.id]
+                if isinstance(K, ast.Constant):
+                    continue
+                stores = [x for st in n.body for x in ast.walk(st)
+                          if isinstance(x, ast.Assign) and any(
+                              isinstance(tt, ast.Subscript) and
+                              norm_src(tt.value) == norm_src(D) and
+                              norm_src(tt.slice) == norm_src(K)
+                              for tt in x.targets)]
+                if not stores:
+                    continue
+                rr.instances += 1
+                kn = {x.id for x in ast.walk(K) if isinstance(x, ast.Name)}
+                _judge_key(ctx, rr, f, rel, n, D, K, stores[0].value, kn, loc)
             # if K in D: use D[K]  else: ... D[K] = v
             for n in own_nodes(f):
                 if not (isinstance(n, ast.If) and n.orelse):
@@ -679,6 +710,10 @@ def rule_cachekey(ctx, prop, rule, modules):
                         V = ast.Tuple(elts=vs, ctx=ast.Load()) if vs else V
                     kn = {x.id for x in ast.walk(K) if isinstance(x, ast.Name)}
                     _judge_key(ctx, rr, f, rel, n, D, K, V, kn, loc)
+    if not rr.instances:
+        rr.instances = 1
+        rr.ok('no hand-written cache (computed key) in %s' % ', '.join(modules),
+              modules[0], nontrivial=False)
     return rr
 
 
